@@ -3,7 +3,7 @@ import Rivaas.Spec.Gates
 /-
 Driver for C17. The first token after the id is the gate kind.
 
-  B <limit> <skip> <cl: A | G | V int> <body> <eofWithLast> <n> {D k | Z | F}* <dflt> <n> cap* => <status> <ran> <err N|E|L|O> <data>
+  B <limit> <skip> <cl: A | G | V int> <body> <eofWithLast> <n> {D k | Z | F | X k}* <dflt> <n> cap* => <status> <ran> <err N|E|L|O> <data>
   A <skip> <n> {user pass}* <realm> <auth> <dec: 0 | 1 bytes> <validator: 0 | 1 verdict> => <ran> <status> <www: 0 | 1 s> <user>
   C <n> opt* <origin> <funcSays> <isOptions> => <ran> <status> acao acac expose methods headers maxage   (each 0 | 1 s)
       opt = O n s* | A b | M n s* | H n s* | E n s* | K b | X n | F b
@@ -35,6 +35,7 @@ def pStep : P Body.Step := do
   if k == "D" then Body.Step.data <$> nat
   else if k == "Z" then pure .zero
   else if k == "F" then pure .fail
+  else if k == "X" then Body.Step.dataFail <$> nat
   else failure
 
 def pCL : P Body.CL := do
